@@ -84,7 +84,11 @@ def oracle_dev(c):
     if c["res"] in ("PANIC", "HANG"):
         return "dev-" + c["res"].lower(), "%s: %s" % (op, c["res"])
     if c["stay_busy"]:
-        if c["res"] == "Ok" and op[0] != "read_raw":
+        # a device that refuses the write command more often than the retry bound (20) never
+        # becomes busy with a write at all: write_word gives up and returns Ok (observation in
+        # DESIGN 10.4; the property bounds the retries and is silent about the result then)
+        gave_up = c.get("cmd_errors", 0) > 20
+        if c["res"] == "Ok" and op[0] != "read_raw" and not gave_up:
             return "dev-busy-ok", "%s succeeded although the device never left busy" % op
         # the simulated device executes a command and then stays busy: what changed must be what
         # its write log shows, and each word must be one the operation was asked to store
